@@ -1,3 +1,53 @@
 """Signature predicates of known_findings.json.  Each takes the `signature_data` dict a check passes to Ctx.violation
 and returns True iff the failing case belongs to that listed finding.  A new failing input is suppressed only if one
 of these predicates holds of it."""
+import re, datetime
+
+def _ts_fields(text):
+    m = re.match(r'^([0-9]{4})-([0-9][0-9]?)-([0-9][0-9]?)(?:(?:[Tt]|[ \t]+)([0-9][0-9]?):([0-9][0-9]):([0-9][0-9])(?:\.([0-9]*))?(?:[ \t]*(Z|([-+])([0-9][0-9]?)(?::([0-9][0-9]))?))?)?$', text)
+    return m
+
+def int_without_digits(d):
+    """plain scalar that the YAML 1.1 int rule accepts but that has no digit after its base prefix (0x_, -0b__, ...):
+    construct_yaml_int hands '0x'/'0b' minus underscores to int() and the ValueError escapes."""
+    return d.get('exc') == 'ValueError' and d.get('kind') in ('converter_crash', 'load_crash') and re.fullmatch(r'[-+]?0[xb]_+', d.get('text', '')) is not None
+
+def timestamp_out_of_range(d):
+    """plain scalar with the shape of a timestamp whose fields datetime rejects (month 13, day 30 of February, hour 25,
+    minute/second 60+, UTC offset of 24h or more): the ValueError of datetime escapes construct_yaml_timestamp."""
+    if d.get('exc') not in ('ValueError', 'OverflowError') or d.get('kind') not in ('converter_crash', 'load_crash'): return False
+    m = _ts_fields(d.get('text', ''))
+    if not m: return False
+    y, mo, da = int(m.group(1)), int(m.group(2)), int(m.group(3))
+    try:
+        if m.group(4) is None:
+            datetime.date(y, mo, da); return False
+        frac = (m.group(7) or '')[:6]; frac = int(frac + '0' * (6 - len(frac))) if frac else 0
+        tz = None
+        if m.group(9):
+            delta = datetime.timedelta(hours=int(m.group(10)), minutes=int(m.group(11) or 0))
+            tz = datetime.timezone(-delta if m.group(9) == '-' else delta)
+        elif m.group(8): tz = datetime.timezone.utc
+        datetime.datetime(y, mo, da, int(m.group(4)), int(m.group(5)), int(m.group(6)), frac, tzinfo=tz)
+        return False
+    except (ValueError, OverflowError):
+        return True
+
+def datetime_subminute_offset(d):
+    """a datetime whose utcoffset is not a whole number of minutes is dumped as +HH:MM:SS[.ffffff], which the
+    timestamp regexp of the constructor does not accept (AttributeError on None.groupdict(), or read back as str)."""
+    from tools.values import decode
+    v = d.get('value')
+    if not v: return False
+    try: o = decode(v)
+    except Exception: return False
+    def has(o, seen):
+        if isinstance(o, datetime.datetime):
+            off = o.utcoffset()
+            return off is not None and (off.total_seconds() % 60 != 0)
+        if id(o) in seen: return False
+        seen.add(id(o))
+        if isinstance(o, (list, set)): return any(has(x, seen) for x in o)
+        if isinstance(o, dict): return any(has(k, seen) or has(x, seen) for k, x in o.items())
+        return False
+    return has(o, set())
